@@ -89,6 +89,14 @@ CLAIMED['C11'] = dict(
          'ill-formed grammars the tests only sample.',
     ref='4.5, 5/C11')
 
+CLAIMED['C05'] = dict(
+    technique='path enumeration with raise events, AST shape checks, who-may-catch inventory over every header, noexcept consistency',
+    text='Claims the structural clauses (who raises what, where; who may catch), not the numerical consistency of positions (C06): must<R> raises exactly the failed R through Control<R>::raise '
+         'with the cursor untouched; raise<T>; the must family by EQUIV (identity of the raised rule for every answer history); normal::raise/raise_nested build parse_error(message, position '
+         'argument) with the custom or default message and raise_nested really nests; what() = position + ": " + message; the only try/catch sites in all 194 headers are the try_catch '
+         'rules, control_action and parse_nested, so every other combinator propagates exceptions unchanged; each try_catch rule catches exactly the type it names; noexcept code never raises.',
+    ref='5/C05')
+
 NOT_YET = 'check not built yet in this round (see DESIGN.md section 10 for the order of construction); no claim is made'
 
 NA_REASONS = {}
